@@ -89,9 +89,12 @@ def adaptive_windows_exact(c):
                 ar = snap(decimal.Decimal(a) / (1 + gd))
                 cl = lambda v: int(min(max(v, decimal.Decimal(1)), decimal.Decimal(a)))
             # float replica
-            gf = (float(nom) / float(den)) ** s
-            alf = int(min(max(gf * a / (1 + gf), 1), a))
-            arf = int(min(max(a / (1 + gf), 1), a))
+            try:
+                gf = (float(nom) / float(den)) ** s
+                alf = int(min(max(gf * a / (1 + gf), 1), a))
+                arf = int(min(max(a / (1 + gf), 1), a))
+            except (OverflowError, ValueError, ZeroDivisionError):
+                alf = arf = None      # the float computation leaves the finite range: not a case the replica speaks about
             if (cl(al), cl(ar)) != (alf, arf):
                 agree = False
             als.append(cl(al)); ars.append(cl(ar))
@@ -349,6 +352,10 @@ Definition rfa_match_x (tol : Qc) (m : res (list Qc * list Qc)) (ox : list Qc) (
             border = lambda K: yy(K - 1) + (yy(K) - yy(K - 1)) * dd(K - 1) / (dd(K - 1) + dd(K))   # value at the left border of interval K
             e = c.get("exp", 1.0)
             b = int(c["beta"] * h) if s == "expfixed" else 0
+            # float conditioning: the implementation takes differences of (oversampled) abscissae, each carrying a rounding
+            # error of about eps*max|x|; relative to the smallest oversampled step this error scales the weights
+            cond = 8 * 2.0 ** -52 * max(abs(v) for v in x) / (min(d) / n) * (max(y) - min(y))
+            near = lambda g, v: abs(g - v) <= 1e-9 * (1 + abs(v)) + cond
             for k in range(m - 1):
                 z0 = border(k)
                 z1 = border(k + 1) if k + 1 <= m - 2 else yy(k) + (yy(m - 1) - yy(k)) * dd(k) / (dd(k) + dd(k + 1))
@@ -378,9 +385,9 @@ Definition rfa_match_x (tol : Qc) (m : res (list Qc * list Qc)) (ox : list Qc) (
                             v = zrb + (z1 - zrb) * (i - (n - b)) / b
                     exp_blk.append(v)
                 got = ys[k * n:(k + 1) * n]
-                if k >= 1 and abs(got[0] - z0) > 1e-9 * (1 + abs(z0)):
+                if k >= 1 and not near(got[0], z0):
                     fail("C06", "border-value", "border %d is %r, linear interpolation between the plateau ends gives %r" % (k, got[0], z0))
-                elif any(abs(g - v) > 1e-9 * (1 + abs(v)) for g, v in zip(got, exp_blk)):
+                elif any(not near(g, v) for g, v in zip(got, exp_blk)):
                     fail("C06", "transition-shape", "interval %d is %s, documented shape gives %s" % (k, got, exp_blk))
 
     def key(self, c, o):
